@@ -44,6 +44,7 @@ func (a *allocator) GetPage(requestOrderID uint32) []byte {
 
 	// put result in used pages
 	a.used[requestOrderID] = append(a.used[requestOrderID], result)
+	vhookPage("alloc.get", requestOrderID, result)
 
 	return result
 }
@@ -56,6 +57,7 @@ func (a *allocator) ReleasePages(requestOrderID uint32) {
 	if used := a.used[requestOrderID]; len(used) > 0 {
 		a.available = append(a.available, used...)
 	}
+	vhook("alloc.release", uint64(requestOrderID), uint64(len(a.used[requestOrderID])))
 	delete(a.used, requestOrderID)
 }
 
@@ -67,6 +69,7 @@ func (a *allocator) Free() {
 
 	a.available = nil
 	a.used = make(map[uint32][][]byte)
+	vhook("alloc.free", 0, 0)
 }
 
 func (a *allocator) countUsedPages() int {
